@@ -53,6 +53,7 @@ def check(ctx):
     r07_9(ctx, g)
     r07_10(ctx, g)
     r07_11(ctx, g)
+    c06.r06_4_caller(ctx, oc.build(ctx, "R06.4"))  # (BO, NO) order of the written S lines: the tags written are those computed, the counter is not disturbed
     ctx.not_decided += [
         "file-level equality on every GFA (tags round-trip through a dict: a repeated tag name on one S line keeps the last value)",
         "uniqueness of component names in name_comps (two components with the same majority SN overwrite each other)",
@@ -394,7 +395,7 @@ def r07_5(ctx):
     ctx.check(comp in it, "R07.5", run.where(nl), "the CSV loop runs over all nodes of the component", key_of(run, f"csv-iter:{it}"))
     # the GFA written for the chromosome is the same component, ordered
     wr = [c for c in ast.walk(m.success_if) if isinstance(c, ast.Call) and isinstance(c.func, ast.Attribute) and c.func.attr == "write_gfa"]
-    kw = {k.arg: norm(k.value) for k in wr[0].keywords} if wr else {}
+    kw = {k_: norm(v_) for k_, v_ in (ctx.repo.bound_args(run, wr[0]) or {}).items()} if wr else {}
     ctx.check(bool(wr) and kw.get("set_of_nodes") == comp and kw.get("order_bo") == "True" and kw.get("append") in ("False", None), "R07.5", run.where(m.success_if), "the per-chromosome GFA is written for the same component, (BO, NO)-ordered, into a fresh file", key_of(run, f"write-gfa-args:{kw}"))
 
 
@@ -510,11 +511,17 @@ def r07_9(ctx, g):
     # order_gfa loads sequences exactly when --with-sequence
     m = oc.build(ctx, "R07.9")
     run = m.run
-    ctors = [(c, guards_of(run.node, stmt_of(run.node, c))) for c in walk_own(run.node) if isinstance(c, ast.Call) and norm(c.func) == "GFA" and c.args]
-    ok = len(ctors) == 2
+    ctors = [(c, guards_of(run.node, stmt_of(run.node, c))) for c in walk_own(run.node) if isinstance(c, ast.Call) and norm(c.func) == "GFA" and (c.args or c.keywords)]
+    ok = len(ctors) in (1, 2)
+    if len(ctors) == 1 and not (isinstance((ctx.repo.bound_args(run, ctors[0][0]) or {}).get("low_memory"), ast.UnaryOp)):
+        ok = False
     for c, gds in ctors:
-        lm = next((const_value(k.value) for k in c.keywords if k.arg == "low_memory"), None)
+        ba = ctx.repo.bound_args(run, c) or {}
+        lmv = ba.get("low_memory")
+        lm = const_value(lmv) if lmv is not None else None
         ws = [pol for t, pol in gds if norm(t) == "with_sequence"]
+        if isinstance(lmv, ast.UnaryOp) and isinstance(lmv.op, ast.Not) and norm(lmv.operand) == "with_sequence":
+            continue  # low_memory=not with_sequence: the same decision, spelled as an expression
         ok = ok and ws and lm == (not ws[0])
     ctx.check(ok, "R07.9", run.where(), "order_gfa keeps sequences exactly with --with-sequence (low_memory = not with_sequence)", key_of(run, "with-sequence"))
 
